@@ -49,20 +49,10 @@ def opt_hex(v): return "none" if v is None else hx(v)
 def opt_unhex(s): return None if s == "none" else unhx(s)
 
 
-_TA = None
-
-
 def tls_addon():
-    """one TlsConfig + options per process (certificate store in .work)"""
-    global _TA
-    if _TA is None:
-        from mitmproxy.test import taddons
-        ta = tlsconfig.TlsConfig()
-        cm = taddons.context(ta)
-        tctx = cm.__enter__()
-        tctx.configure(ta, confdir=os.path.join(WORK, "c18-conf"))
-        _TA = (ta, tctx, cm)
-    return _TA[0], _TA[1]
+    """the one TlsConfig + options of this process (mitmproxy.ctx is global: exactly one taddons context may be live)"""
+    ta, tctx, _, _ = stack_addons()
+    return ta, tctx
 
 
 def make_ctx(tctx, offers, upstream, swp, client_alpn=None):
@@ -121,6 +111,124 @@ def server_offers(client_offers, preset, http2):
     ta.tls_start_server(ts)
     return [hx(x) for x in ctx.server.alpn_offers]
 
+_STACK = None
+
+
+def stack_addons():
+    """TlsConfig + Proxyserver (owns connection_strategy) for the layer-stack scenarios, one per process"""
+    global _STACK
+    if _STACK is None:
+        from mitmproxy.test import taddons
+        from mitmproxy.addons import proxyserver
+        from common.paths import REPO
+        certs = os.path.join(REPO, "test", "mitmproxy", "net", "data", "verificationcerts")
+        ta = tlsconfig.TlsConfig()
+        cm = taddons.context(proxyserver.Proxyserver(), ta)
+        tctx = cm.__enter__()
+        tctx.configure(ta, confdir=os.path.join(WORK, "c18-conf"),
+                       ssl_verify_upstream_trusted_ca=os.path.join(certs, "trusted-root.crt"))
+        _STACK = (ta, tctx, cm, certs)
+    return _STACK
+
+
+class _Peer:
+    """in-memory TLS endpoint (CPython ssl module): the real client / the real upstream server"""
+    def __init__(self, server_side, alpn, certs):
+        import ssl
+        self.ssl = ssl
+        self.inc, self.out = ssl.MemoryBIO(), ssl.MemoryBIO()
+        if server_side:
+            self.ctx = ssl.SSLContext(ssl.PROTOCOL_TLS_SERVER)
+            self.ctx.load_cert_chain(certfile=os.path.join(certs, "trusted-leaf.crt"), keyfile=os.path.join(certs, "trusted-leaf.key"))
+        else:
+            self.ctx = ssl.SSLContext(ssl.PROTOCOL_TLS_CLIENT)
+            self.ctx.check_hostname = False
+            self.ctx.verify_mode = ssl.CERT_NONE
+        if alpn:
+            self.ctx.set_alpn_protocols(alpn)
+        self.obj = self.ctx.wrap_bio(self.inc, self.out, server_side=server_side,
+                                     server_hostname=None if server_side else "example.mitmproxy.org")
+        self.done = False
+        self.error = None
+
+    def step(self, data=b""):
+        if data: self.inc.write(data)
+        if not self.done and self.error is None:
+            try:
+                self.obj.do_handshake(); self.done = True
+            except self.ssl.SSLWantReadError:
+                pass
+            except self.ssl.SSLError as e:
+                self.error = type(e).__name__
+        return self.out.read()
+
+
+UPSTREAM_KINDS = {"h2": ["h2", "http/1.1"], "http/1.1": ["http/1.1"], "noalpn": None, "foreign": ["zzz-not-offered"],
+                  "h1first": ["http/1.1", "h2"], "unknown1": ["spdy/3", "h2"]}
+
+
+def run_stack(offers, upstream_kind, http2, eager):
+    """real ServerTLSLayer > ClientTLSLayer with the real TlsConfig hooks, a real TLS client and a real TLS upstream server.
+    eager: mitmproxy completes TLS with upstream before answering the client (server.alpn comes from the real handshake)."""
+    from mitmproxy import connection
+    from mitmproxy.proxy import commands, context, events, layer
+    from mitmproxy.proxy.layers import tls
+    ta, tctx, _, certs = stack_addons()
+    tctx.options.http2 = http2
+    tctx.options.connection_strategy = "eager" if eager else "lazy"
+
+    class Sink(layer.Layer):
+        def _handle_event(self, event):
+            yield from ()
+
+    ctx = context.Context(connection.Client(peername=("client", 1234), sockname=("127.0.0.1", 8080), timestamp_start=1.0,
+                                            state=connection.ConnectionState.OPEN), tctx.options)
+    ctx.server.address = ("example.mitmproxy.org", 443)
+    ctx.server.tls = True
+    server_layer = tls.ServerTLSLayer(ctx)
+    client_layer = tls.ClientTLSLayer(ctx)
+    server_layer.child_layer = client_layer
+    client_layer.child_layer = Sink(ctx)
+    client_peer = _Peer(False, [o.decode("ascii") for o in offers], certs)
+    upstream_peer = _Peer(True, UPSTREAM_KINDS[upstream_kind], certs)
+    hooks = {"tls_clienthello": ta.tls_clienthello, "tls_start_client": ta.tls_start_client, "tls_start_server": ta.tls_start_server}
+    queue = [events.Start()]
+    opened = []
+
+    def pump():
+        steps = 0
+        while queue:
+            steps += 1
+            if steps > 500: raise RuntimeError("stack: step limit")
+            ev = queue.pop(0)
+            for cmd in list(server_layer.handle_event(ev)):
+                if isinstance(cmd, commands.StartHook):
+                    fn = hooks.get(cmd.name)
+                    if fn: fn(*cmd.args())
+                    queue.append(events.HookCompleted(cmd))
+                elif isinstance(cmd, commands.OpenConnection):
+                    cmd.connection.state = connection.ConnectionState.OPEN
+                    opened.append(cmd.connection)
+                    queue.append(events.OpenConnectionCompleted(cmd, None))
+                elif isinstance(cmd, commands.SendData):
+                    if cmd.connection is ctx.client:
+                        reply = client_peer.step(cmd.data)
+                        if reply: queue.append(events.DataReceived(ctx.client, reply))
+                    else:
+                        reply = upstream_peer.step(cmd.data)
+                        if reply: queue.append(events.DataReceived(ctx.server, reply))
+    pump()
+    hello = client_peer.step()
+    queue.append(events.DataReceived(ctx.client, hello))
+    pump()
+    up = upstream_peer.obj.selected_alpn_protocol() if upstream_peer.done else None
+    return {"client_done": client_peer.done, "upstream_done": upstream_peer.done,
+            "client_err": client_peer.error, "upstream_err": upstream_peer.error,
+            "client_got": opt_hex((client_peer.obj.selected_alpn_protocol() or "").encode()) if client_peer.done else "none",
+            "upstream_got": opt_hex((up or "").encode()) if upstream_peer.done else "none",
+            "proxy_client_alpn": opt_hex(ctx.client.alpn), "proxy_server_alpn": opt_hex(ctx.server.alpn),
+            "upstream_offers": [hx(x) for x in (ctx.server.alpn_offers or [])]}
+
 
 class Check(PropertyCheck):
     prop = "C18"
@@ -151,7 +259,13 @@ class Check(PropertyCheck):
     time_budget = {"quick": 20, "thorough": 400}
     fingerprints = ["mitmproxy.addons.tlsconfig:alpn_select_callback",
                     "mitmproxy.addons.tlsconfig:TlsConfig.tls_start_client",
-                    "mitmproxy.addons.tlsconfig:TlsConfig.tls_start_server"]
+                    "mitmproxy.addons.tlsconfig:TlsConfig.tls_start_server",
+                    "mitmproxy.addons.tlsconfig:TlsConfig.tls_clienthello",
+                    "mitmproxy.proxy.layers.tls:TLSLayer.receive_handshake_data",
+                    "mitmproxy.proxy.layers.tls:TLSLayer.start_tls",
+                    "mitmproxy.proxy.layers.tls:ClientTLSLayer.receive_handshake_data",
+                    "mitmproxy.proxy.layers.tls:ClientTLSLayer.start_server_tls",
+                    "mitmproxy.proxy.layers.tls:ServerTLSLayer.start_handshake"]
     trusted_base = ["OpenSSL/pyOpenSSL ALPN: the select callback receives the client's offers; its return value is what is negotiated",
                     "TLS: the protocol negotiated upstream is one of the protocols offered upstream"]
     parallel = False
@@ -209,7 +323,15 @@ class Check(PropertyCheck):
         def proto():
             return rng.pick(cls) if rng.chance(0.8) else rng.pick(pool) if rng.chance(0.7) else rng.bytes_(rng.randint(0, 6))
 
-        # real handshakes first (a fixed grid ~130, then random ones in the stream)
+        # the real TLS layer stack first: client offers x upstream peer x order x http2
+        stack_offers = [[H2, H11], [H11, H2], [H2], [H11], [UNKNOWN1, H2], []]
+        for o in stack_offers:
+            for up in ("noalpn", "h2", "http/1.1", "foreign"):
+                for eager in (True, False):
+                    for h in (True, False):
+                        if tier == "quick" and not eager and up in ("http/1.1", "foreign"): continue
+                        yield {"op": "stack", "offers": [hx(x) for x in o], "up": up, "http2": h, "eager": eager}
+        # real handshakes against tls_start_client's SSL.Connection (a fixed grid ~130, then random ones in the stream)
         grid_offers = [[H2, H11], [H11, H2], [H2], [H11], [UNKNOWN1], [UNKNOWN1, H11], [b"http/1.0", H2, UNKNOWN2], []]
         for o in grid_offers:
             for up in (None, b"", H2, H11, UNKNOWN1):
@@ -223,6 +345,12 @@ class Check(PropertyCheck):
                 yield {"op": "srv", "client_offers": [hx(x) for x in o], "preset": [hx(H11)], "http2": h}
         while True:
             r = rng.random()
+            if rng.chance(0.004 if tier == "quick" else 0.002):
+                k = rng.randint(0, 4)
+                offers = list(dict.fromkeys(rng.pick(cls + [b"h3-29", b"h2c"]) for _ in range(k)))
+                yield {"op": "stack", "offers": [hx(x) for x in offers], "up": rng.pick(sorted(UPSTREAM_KINDS)),
+                       "http2": rng.chance(0.5), "eager": rng.chance(0.75)}
+                continue
             if r < 0.93:
                 n = rng.weighted([(1, 0), (3, 1), (4, 2), (4, 3), (3, 4), (2, rng.randint(5, 12))])
                 offers = [proto() for _ in range(n)]
@@ -247,6 +375,11 @@ class Check(PropertyCheck):
         if op == "cb":
             r = call_cb(opt_unhex(case["c"]), opt_unhex(case["s"]), case["http2"], [unhx(x) for x in case["offers"]])
             return {"r": opt_hex(r)}
+        if op == "stack":
+            import json
+            obs = run_stack([unhx(x) for x in case["offers"]], case["up"], case["http2"], case["eager"])
+            self._stash = (json.dumps(case, sort_keys=True), obs)
+            return obs
         if op == "srv":
             return {"offers": server_offers([unhx(x) for x in case["client_offers"]], [unhx(x) for x in case["preset"]], case["http2"])}
         return handshake([unhx(x) for x in case["offers"]], opt_unhex(case["s"]), case["http2"], case["swp"])
@@ -278,6 +411,12 @@ class Check(PropertyCheck):
             c, s = opt_unhex(case["c"]), opt_unhex(case["s"])
             offers = [unhx(x) for x in case["offers"]]
             return self.judge(c, s, case["http2"], offers, opt_unhex(obs["r"]), swp=(c == H11) or None)
+        if op == "stack":
+            if not obs["client_done"] or (case["eager"] and not obs["upstream_done"]):
+                return ["TLS layer stack: handshake did not complete (client %s / upstream %s)" % (obs["client_err"], obs["upstream_err"])]
+            offers = [unhx(x) for x in case["offers"]]
+            # what the client peer actually negotiated, against what the upstream peer actually negotiated
+            return self.judge(None, self._stack_upstream(case, obs), case["http2"], offers, unhx(obs["client_got"]) or None)
         if op == "srv":
             return []       # tls_start_server is tied to the model; the property's sentences are about the client side
         fails = []
@@ -289,12 +428,21 @@ class Check(PropertyCheck):
         neg = unhx(obs["proxy_side"]) or None
         return fails + self.judge(H11 if case["swp"] else None, opt_unhex(case["s"]), case["http2"], offers, neg, swp=case["swp"])
 
+    @staticmethod
+    def _stack_upstream(case, obs):
+        """the upstream protocol as the upstream PEER saw it: None = not connected yet (client-first), b"" = handshake
+        completed without a protocol, else the protocol"""
+        if not case["eager"] or not obs["upstream_done"]: return None
+        return unhx(obs["upstream_got"])
+
     def known(self, case, obs, failure):
         # F-C18a / F-C18b: exactly the combinations outside the reachability guard (callback level or handshake level)
         if case["op"] == "cb":
             c, s, offers, r = opt_unhex(case["c"]), opt_unhex(case["s"]), [unhx(x) for x in case["offers"]], opt_unhex(obs["r"])
         elif case["op"] == "hs" and not case["swp"]:
             c, s, offers, r = None, opt_unhex(case["s"]), [unhx(x) for x in case["offers"]], unhx(obs["proxy_side"]) or None
+        elif case["op"] == "stack" and obs.get("client_done"):
+            c, s, offers, r = None, self._stack_upstream(case, obs), [unhx(x) for x in case["offers"]], unhx(obs["client_got"]) or None
         else:
             return None
         if c is not None: return None
@@ -310,6 +458,16 @@ class Check(PropertyCheck):
         op = case["op"]
         if op == "cb":
             return [f"cb {case['c']} {case['s']} {int(case['http2'])} " + (",".join(case["offers"]) or "nil")]
+        if op == "stack":
+            # the model is fed what the upstream PEER negotiated (impl() of this case has just run in this process)
+            import json
+            key = json.dumps(case, sort_keys=True)
+            obs = self._stash[1] if getattr(self, "_stash", (None,))[0] == key else self.impl(case)
+            if not case["offers"] or not obs["client_done"] or (case["eager"] and not obs["upstream_done"]): return None
+            up = self._stack_upstream(case, obs)
+            lines = [f"hs 0 none {opt_hex(up)} {int(case['http2'])} " + ",".join(case["offers"])]
+            if case["eager"]: lines.append(f"srv {int(case['http2'])} nil " + ",".join(case["offers"]))
+            return lines
         if op == "srv":
             return [f"srv {int(case['http2'])} " + (",".join(case["preset"]) or "nil") + " " + (",".join(case["client_offers"]) or "nil")]
         if not case["offers"]:
@@ -317,10 +475,14 @@ class Check(PropertyCheck):
         return [f"hs {int(case['swp'])} none {case['s']} {int(case['http2'])} " + ",".join(case["offers"])]
 
     def model_obs(self, case, replies):
-        return replies[0]
+        return list(replies) if case["op"] == "stack" else replies[0]
 
     def impl_view(self, case, obs):
         op = case["op"]
+        if op == "stack":
+            v = ["none" if obs["client_got"] == "-" else obs["client_got"]]
+            if case["eager"]: v.append(",".join(obs["upstream_offers"]) or "nil")
+            return v
         if op == "cb": return obs["r"]
         if op == "srv": return ",".join(obs["offers"]) or "nil"
         return "none" if obs["proxy_side"] == "-" else obs["proxy_side"]
@@ -328,10 +490,14 @@ class Check(PropertyCheck):
     def classify(self, case, obs):
         key = "offers" if case["op"] != "srv" else "client_offers"
         if not case[key]: return None
-        return (case["op"], case.get("c"), case.get("s"), case["http2"], tuple(case[key]), case.get("swp"), tuple(case.get("preset", ())))
+        return (case["op"], case.get("c"), case.get("s"), case["http2"], tuple(case[key]), case.get("swp"), tuple(case.get("preset", ())),
+                case.get("up"), case.get("eager"))
 
     def branches(self, case, obs):
         op = case["op"]
+        if op == "stack":
+            g = lambda v: "none" if v in ("-", "none") else unhx(v).decode("latin1")
+            return [f"stack:{'server-first' if case['eager'] else 'client-first'}:up={case['up']}:upstream={g(obs['upstream_got'])}:client={g(obs['client_got'])}"]
         if op == "srv":
             return ["srv:preset" if case["preset"] else "srv:mirror" if case["http2"] else "srv:mirror-minus-h2"]
         if op == "hs":
